@@ -157,7 +157,8 @@ def analyse_scan_k(prog, rep, kern, entry, k, O, mode, earlier, data=None, listp
     # by its flag-setting summary: true iff it was true before or some element takes a setting path.
     used_loops = []
     V, W, NANV = Fr(5), Fr(7), Fr(101)
-    KINDS = (('V', V, 0), ('W', W, 0), ('nan', NANV, 1))
+    # 'N': a number next to V but not V (exact arithmetic: closer than any tolerance a `isclose`-like test could use)
+    KINDS = (('V', V, 0), ('W', W, 0), ('N', V + Fr(1, 10 ** 40), 0), ('nan', NANV, 1))
 
     def elem_atoms(L2, conds):
         ats_ = set()
